@@ -29,6 +29,10 @@ type Cfg struct {
 	// WithFootnoteIDPrefixFunction (a slice with spare capacity, never written by the harness)
 	FnPrefix     string
 	FnPrefixFunc bool
+	// Opts: the extensions are built with their own options set (footnote link / back-link titles
+	// with the ^^ and %% placeholders and a back-link text, further Linkify protocols including
+	// dangerous ones, Typographer substitutions with some disabled and some replaced)
+	Opts bool
 }
 
 func (c Cfg) Name() string {
@@ -44,6 +48,9 @@ func (c Cfg) Name() string {
 	if c.TableAlign != 0 {
 		s += fmt.Sprintf("+align%d", c.TableAlign)
 	}
+	if c.Opts {
+		s += "+extopts"
+	}
 	if c.FnPrefix != "" {
 		s += "+fnprefix=" + c.FnPrefix
 		if c.FnPrefixFunc {
@@ -55,15 +62,39 @@ func (c Cfg) Name() string {
 
 // the Footnote extension of a configuration
 func (c Cfg) footnoteExt() goldmark.Extender {
-	if c.FnPrefix == "" {
+	if c.FnPrefix == "" && !c.Opts {
 		return extension.Footnote
 	}
-	if c.FnPrefixFunc {
-		pre := make([]byte, len(c.FnPrefix), 64)
-		copy(pre, c.FnPrefix)
-		return extension.NewFootnote(extension.WithFootnoteIDPrefixFunction(func(ast.Node) []byte { return pre }))
+	var fo []extension.FootnoteOption
+	if c.Opts {
+		fo = append(fo, extension.WithFootnoteLinkTitle("note ^^ (use %%) & \"more\""), extension.WithFootnoteBacklinkTitle("back from ^^, reference %% <"),
+			extension.WithFootnoteBacklinkHTML("&#8617;"))
 	}
-	return extension.NewFootnote(extension.WithFootnoteIDPrefix(c.FnPrefix))
+	if c.FnPrefix != "" {
+		if c.FnPrefixFunc {
+			pre := make([]byte, len(c.FnPrefix), 64)
+			copy(pre, c.FnPrefix)
+			fo = append(fo, extension.WithFootnoteIDPrefixFunction(func(ast.Node) []byte { return pre }))
+		} else {
+			fo = append(fo, extension.WithFootnoteIDPrefix(c.FnPrefix))
+		}
+	}
+	return extension.NewFootnote(fo...)
+}
+
+func (c Cfg) linkifyExt() goldmark.Extender {
+	if !c.Opts {
+		return extension.Linkify
+	}
+	return extension.NewLinkify(extension.WithLinkifyAllowedProtocols([]string{"http:", "https:", "ftp:", "mailto:", "javascript:", "vbscript:", "data:", "file:", "x-y:"}))
+}
+
+func (c Cfg) typoExt() goldmark.Extender {
+	if !c.Opts {
+		return extension.Typographer
+	}
+	return extension.NewTypographer(extension.WithTypographicSubstitutions(map[extension.TypographicPunctuation]string{
+		extension.LeftSingleQuote: "&sbquo;", extension.RightSingleQuote: "&lsquo;", extension.EnDash: "&#8211;", extension.Ellipsis: "&#x2026;"}))
 }
 
 // removes the configured footnote id prefix from id and href values, so that the id oracles see
@@ -89,12 +120,12 @@ func tableExt(align int) goldmark.Extender {
 }
 
 func (c Cfg) Extenders() []goldmark.Extender {
-	gfm := []goldmark.Extender{extension.Linkify, tableExt(c.TableAlign), extension.Strikethrough, extension.TaskList}
+	gfm := []goldmark.Extender{c.linkifyExt(), tableExt(c.TableAlign), extension.Strikethrough, extension.TaskList}
 	switch c.Ext {
 	case "core":
 		return nil
 	case "gfm":
-		if c.TableAlign == 0 {
+		if c.TableAlign == 0 && !c.Opts {
 			return []goldmark.Extender{extension.GFM}
 		}
 		return gfm
@@ -107,13 +138,13 @@ func (c Cfg) Extenders() []goldmark.Extender {
 	case "task":
 		return []goldmark.Extender{extension.TaskList}
 	case "linkify":
-		return []goldmark.Extender{extension.Linkify}
+		return []goldmark.Extender{c.linkifyExt()}
 	case "deflist":
 		return []goldmark.Extender{extension.DefinitionList}
 	case "footnote":
 		return []goldmark.Extender{c.footnoteExt()}
 	case "typo":
-		return []goldmark.Extender{extension.Typographer}
+		return []goldmark.Extender{c.typoExt()}
 	case "cjk":
 		return []goldmark.Extender{extension.NewCJK(extension.WithEastAsianLineBreaks(extension.EastAsianLineBreaksSimple))}
 	case "cjkcss3":
@@ -121,7 +152,7 @@ func (c Cfg) Extenders() []goldmark.Extender {
 	case "cjkesc":
 		return []goldmark.Extender{extension.NewCJK(extension.WithEscapedSpace())}
 	case "all":
-		return append(gfm, extension.DefinitionList, c.footnoteExt(), extension.Typographer, extension.CJK)
+		return append(gfm, extension.DefinitionList, c.footnoteExt(), c.typoExt(), extension.CJK)
 	case "gfm+footnote":
 		return append(gfm, c.footnoteExt())
 	}
